@@ -187,7 +187,8 @@ def gen_init(rnd, sh):
     if sh["t"] == "int":
         return rnd.choice([None, 0, 1, (1 << sh["w"]) - 1 if sh["w"] else 0, -1])
     if sh["t"] == "range":
-        return rnd.choice([None, sh["lo"], sh["hi"] - 1, 0])
+        # both ends from inside and outside: lo - 1 and hi (= range.stop) must be refused with ValueError
+        return rnd.choice([None, sh["lo"], sh["hi"] - 1, 0, sh["hi"], sh["hi"], sh["lo"] - 1, sh["hi"] + 1])
     return None
 
 
